@@ -1095,10 +1095,11 @@ func genFunctionWrapper(n *node) func(*frame) reflect.Value {
 		return reflect.MakeFunc(funcType, func(in []reflect.Value) []reflect.Value {
 			// Allocate and init local frame. All values to be settable and addressable.
 			id := f.runid()
-			if f.anc == nil {
-				// A function of the global frame may be called long after its wrapper was
-				// created, possibly after a cancelled evaluation: the call belongs to the
-				// current run.
+			if f.anc == nil || f.live() {
+				// A function of the global frame, or a function value created by an
+				// evaluation which was not cancelled, may be called long after its wrapper
+				// was created, possibly after a cancelled evaluation: the call belongs to
+				// the current run.
 				id = n.interp.runid()
 			}
 			fr := newFrame(f, len(def.types), id)
@@ -2064,10 +2065,10 @@ func getFunc(n *node) {
 		fct := reflect.MakeFunc(n.typ.TypeOf(), func(in []reflect.Value) []reflect.Value {
 			// Allocate and init local frame. All values to be settable and addressable.
 			id := fr.runid()
-			if fr.anc == nil {
-				// A closure created in the global frame may be called after a cancelled
-				// evaluation: the call belongs to the current run, not to the one which
-				// created the closure.
+			if fr.live() {
+				// A closure created by an evaluation which was not cancelled may be called
+				// after the cancellation of another one: the call belongs to the current
+				// run, not to the one which created the closure.
 				id = n.interp.runid()
 			}
 			fr2 := newFrame(fr, len(n.types), id)
